@@ -936,6 +936,53 @@ def r07_8(ctx):
     ctx.ob("unit-readers", n >= 2, site(d), f"{n} code-unit reader(s)")
 
 
+@rule("R07.9", 2, "what the re-encoder asks its fixed remainder buffer (is anything left?) is answered from the unread window buf[pos..len]: a yes/no observer used from outside the buffer type reads both cursors", ["C07", "C02"])
+def r07_9(ctx):
+    import r_c04
+
+    lib = ctx.lib
+    adt, pos_f, len_f = r_c04.array_buffer_window(lib)
+    ctx.need(adt is not None and pos_f is not None, "fixed array buffer with an unread window buf[pos..len] not found")
+    # what users of the buffer ask about it (`is_empty()`) is answered from the unread window: a yes/no observer
+    # called from outside the type reads both ends of buf[pos..len], itself or through the type's own helpers
+    def _fields_read(b_, depth=0):
+        got = set()
+
+        def walk(x):
+            if isinstance(x, dict):
+                if x.get("k") == "field" and x.get("adt") == adt and "name" in x:
+                    got.add(x["name"])
+                for v_ in x.values():
+                    walk(v_)
+            elif isinstance(x, list):
+                for v_ in x:
+                    walk(v_)
+
+        for bi_ in sorted(b_.reach()):
+            walk(b_.blocks[bi_]["stmts"])
+            t_ = b_.blocks[bi_]["term"]
+            walk({k_: v_ for k_, v_ in t_.items() if k_ in ("args", "discr", "cond", "dest")})
+            if t_["k"] == "call" and depth < 2:
+                cb_ = lib.by_id.get((fn_of(t_) or {}).get("resolved") or (fn_of(t_) or {}).get("def"))
+                if cb_ is not None and cb_.raw.get("impl_self_adt") == adt:
+                    got |= _fields_read(cb_, depth + 1)
+        return got
+
+    n_obs = 0
+    for ob_ in lib.bodies:
+        if ob_.raw.get("impl_self_adt") != adt or ob_.nargs != 1 or ob_.local_ty(0) != "bool" or not ob_.local_ty(1).startswith("&") or ob_.local_ty(1).startswith("&mut "):
+            continue
+        used_outside = any(((fn_of(t_) or {}).get("resolved") or (fn_of(t_) or {}).get("def")) == ob_.id for c_ in lib.bodies if c_.raw.get("impl_self_adt") != adt for _, t_ in c_.calls())
+        if not used_outside:
+            continue
+        n_obs += 1
+        fr = _fields_read(ob_)
+        ok_o = pos_f in fr and len_f in fr
+        ctx.ob(f"observer-uses-window:{ob_.name}", ok_o, site(ob_), f"`{ob_.name}` is decided from buf[{pos_f}..{len_f}] (reads {sorted(fr)})" if ok_o else
+               f"`{ob_.name}` reads only {sorted(fr)}: once part of the buffer has been consumed ({pos_f} > 0) it no longer says whether unread bytes remain — the encoder takes a drained remainder for pending output and reports a false end of input")
+    ctx.ob("observers-found", n_obs >= 1, adt, f"{n_obs} yes/no observer(s) of the buffer used from outside the type")
+
+
 @rule("R07.7", 1, "a character encoded into a scratch array is emitted only up to its encoded length: every slice of the scratch array ends at encode_utf8(..).len() (or at a minimum with it)", ["C07"])
 def r07_7(ctx):
     lib = ctx.lib
@@ -1296,6 +1343,13 @@ def r07_6(ctx):
                     got = _loop_fill(b, bl, bb, need)
                 if got is not None:
                     ok, det = got
+            elif sf.get("def", "").startswith("std::vec::Vec::<T>::") and sf.get("name") in ("new", "with_capacity") and not src["dest"]["pr"]:
+                # a fresh Vec: it must have been filled by a draining read of take(N) before the detector sees it
+                got = copy_fill(b, src["dest"]["l"], bb)
+                if got is not None:
+                    ok, det = got
+                else:
+                    det = "detector input is a new Vec that no draining read of `take(N)` filled on the way here"
             else:
                 det = f"detector input comes from {sf.get('def')}: a single read/fill_buf may return fewer than {need} bytes of a longer stream"
         return [(ok, det, b, bb)]
@@ -1317,6 +1371,17 @@ def r07_6(ctx):
                     sws = r_bin.result_switches(b, ct["dest"]["l"])
                     after_ok = any(oks and all(b.dominates(o, bb) for o in oks[:1]) for _, _, oks in sws)
                     return (isinstance(v, int) and v >= need and after_ok, f"buffer filled by io::copy(reader.take({v}), ..) (loops until {v} bytes or EOF)")
+            if cf.get("trait") == "std::io::Read" and cf.get("name") == "read_to_end" and len(ct["args"]) == 2 and b.dominates(cb2, bb):
+                # `reader.take(N).read_to_end(&mut bl)`: the same drain, written as a method
+                w = trace(b, ct["args"][1])
+                wl = w.origin[2]["dest"]["l"] if w.origin and w.origin[0] == "call" else (w.origin[1] if w.origin and w.origin[0] == "multi" else None)
+                r = trace(b, ct["args"][0])
+                if wl is not None and wl == bl and r.origin and r.origin[0] == "call" and (fn_of(r.origin[2]) or {}).get("def") == "std::io::Read::take":
+                    lv = trace(b, r.origin[2]["args"][1])
+                    v = lv.origin[1].get("v") if lv.origin and lv.origin[0] == "const" else None
+                    sws = r_bin.result_switches(b, ct["dest"]["l"])
+                    after_ok = any(oks and all(b.dominates(o, bb) for o in oks[:1]) for _, _, oks in sws)
+                    return (isinstance(v, int) and v >= need and after_ok, f"buffer filled by reader.take({v}).read_to_end(..) (reads until {v} bytes or EOF)")
         return None
 
     n = 0
